@@ -520,11 +520,14 @@ func Run(t *testing.T, opt Options, driver func(s *Sched)) (out Outcome) {
 		if h == nil { // progress was made meanwhile
 			continue
 		}
-		if h.Draining {
+		if h.Draining && (h.Deadlock || idle >= opt.HangCap) {
 			// the driver has returned (its results stand); what is left of the bubble cannot exit: abandon it
 			leaked.Add(1)
 			out.Hang = h
 			return
+		}
+		if h.Draining {
+			continue
 		}
 		if h.Deadlock && (!opt.Strict || idle >= opt.StrictAfter) {
 			leaked.Add(1)
